@@ -945,6 +945,18 @@ func c03passstate(p *Prog, r *Report) {
 				}
 			}
 		}
+		// the node's PROGRESS (how far consensus has got locally) is pass state too: a separate obligation, so that the
+		// known finding about the recorded witness flags does not cover it
+		var badP []string
+		for _, n := range []string{"LastConsensusRound", "FirstConsensusRound", "PendingRounds", "AnchorBlock", "LastCommitedRoundEvents"} {
+			if fv := p.Field(HG, "Hashgraph", n); fv != nil {
+				if in, ok := readsField(f, fv); ok {
+					badP = append(badP, "reads Hashgraph."+n+" at "+p.ipos(in))
+				}
+			}
+		}
+		r.Check(len(badP) == 0, rule, f.Name()+":reads-consensus-progress", p.pos(f.Pos()), fnName(f), "insertion-time code independent of how far consensus has got on this node",
+			"insertion-time code reads the node's consensus progress ("+strings.Join(badP, "; ")+"): what it writes into the DAG summary (coordinates, first descendants) then depends on WHEN the node received the event relative to its own progress — two nodes holding the same DAG compute different rounds, witnesses and blocks")
 		short := f.Name()
 		r.Check(len(bad) == 0, rule, short+":reads-pass-state", p.pos(f.Pos()), fnName(f), "insertion-time code independent of the consensus passes",
 			"insertion-time code reads state written by the consensus passes ("+strings.Join(bad, "; ")+"): what it writes into the DAG summary depends on how many passes ran between insertions — consensus results can differ between per-event and batched passes")
